@@ -75,8 +75,11 @@ RequestedKeptFails(CT, tps, pre, args) ==
                               /\ ~(args[i].k = "W" /\ pre[tps[i].n].k # "W" /\ Core1(args[i]) = pre[tps[i].n]))
 ProjectionFails(tps, pre, choices, sw, args, i) ==
   (args[i].k = "W") /\ ~(tps[i].n \in DOMAIN pre /\ pre[tps[i].n] = args[i]) /\ ~Allowed(tps, choices, sw, i, args[i].n)
+\* projections among the type arguments of t (the bound a type-variable term carries along is not part of the type written here)
+RECURSIVE ArgProj(_, _)
+ArgProj(t, ns) == IF t.k = "V" THEN FALSE ELSE (t.k = "W" /\ t.n \in ns) \/ \E i \in DOMAIN t.a : ArgProj(t.a[i], ns)
 DeepFails(tps, pre, choices, sw, args, i) ==     \* below the top level of an argument
-  (tps[i].n \notin DOMAIN pre) /\ (((~choices.on \/ sw.disUse) /\ HasKind(Core1(args[i]), {"W"})) \/ (sw.disContra /\ HasIn(Core1(args[i]))))
+  (tps[i].n \notin DOMAIN pre) /\ (((~choices.on \/ sw.disUse) /\ ArgProj(Core1(args[i]), {"out", "in", "star"})) \/ (sw.disContra /\ ArgProj(Core1(args[i]), {"in"})))
 InstBad(CT, tps, pre, choices, sw, args, map) ==
   IF Len(args) # Len(tps) THEN {"OneArgumentPerParameter"} ELSE
   {cl \in {"WithinBound", "NoPrimitiveOrBareArgument", "RequestedKept", "ProjectionAllowed", "SwitchesDeep", "MapConsistent"} :
